@@ -157,6 +157,65 @@ Qed.
 Lemma cell_ids_perm grids : Permutation (concat (cell_ids grids)) (seq 0 (total grids)).
 Proof. apply (cell_blocks_perm grids [] 0). constructor. Qed.
 
+(* 3-D polyhedral blocks: sorted by type, still a permutation *)
+Lemma ins_block_perm b l : Permutation (ins_block b l) (b :: l).
+Proof.
+  induction l as [|x l IH]; cbn [ins_block]; [apply Permutation_refl|].
+  destruct (fst b <=? fst x)%Z; [apply Permutation_refl|].
+  eapply Permutation_trans; [apply perm_skip; exact IH|]. apply perm_swap.
+Qed.
+
+Lemma sort_blocks_perm l : Permutation (sort_blocks l) l.
+Proof.
+  induction l as [|b l IH]; [constructor|]. cbn [sort_blocks fold_right].
+  eapply Permutation_trans; [apply ins_block_perm|]. apply perm_skip. exact IH.
+Qed.
+
+Lemma ids_of_perm a b : Permutation a b -> Permutation (ids_of a) (ids_of b).
+Proof.
+  unfold ids_of. induction 1 as [| x l l' H IH | x y l | l l' l'' H1 IH1 H2 IH2].
+  - constructor.
+  - cbn [map concat]. apply Permutation_app_head. exact IH.
+  - cbn [map concat]. rewrite !app_assoc. apply Permutation_app_tail. apply Permutation_app_comm.
+  - eapply Permutation_trans; eassumption.
+Qed.
+
+Lemma cell_ids_3d_perm grids : Permutation (concat (cell_ids_3d grids)) (seq 0 (total grids)).
+Proof.
+  eapply Permutation_trans; [|apply cell_ids_perm].
+  apply (ids_of_perm _ _ (sort_blocks_perm (cell_blocks [] grids 0))).
+Qed.
+
+Lemma ins_block_sorted b l :
+  StronglySorted (fun x y => (fst x <= fst y)%Z) l ->
+  StronglySorted (fun x y => (fst x <= fst y)%Z) (ins_block b l).
+Proof.
+  induction l as [|x l IH]; intro H; cbn [ins_block]; [constructor; constructor|].
+  inversion H as [|? ? Hs Hall]; subst. destruct (fst b <=? fst x)%Z eqn:E.
+  - apply Z.leb_le in E. constructor; [exact H|]. constructor; [exact E|].
+    eapply Forall_impl; [|exact Hall]. intros a Ha; cbn beta in *; lia.
+  - apply Z.leb_gt in E. constructor; [apply IH; exact Hs|].
+    apply Forall_forall. intros y Hy.
+    apply (Permutation_in _ (ins_block_perm b l)) in Hy. destruct Hy as [<-|Hy]; [lia|].
+    rewrite Forall_forall in Hall. apply Hall. exact Hy.
+Qed.
+
+Lemma cell_ids_3d_sorted grids :
+  StronglySorted Z.le (map fst (sort_blocks (cell_blocks [] grids 0))).
+Proof.
+  assert (H : StronglySorted (fun x y => (fst x <= fst y)%Z)
+                             (sort_blocks (cell_blocks [] grids 0))).
+  { induction (cell_blocks [] grids 0) as [|b l IH]; [constructor|].
+    cbn [sort_blocks fold_right]. apply ins_block_sorted. exact IH. }
+  induction H as [|x l Hs IH Hall]; [constructor|]. cbn [map]. constructor; [exact IH|].
+  rewrite Forall_map. exact Hall.
+Qed.
+
+Lemma poly3d_sorted_perm (grids : list (list Z)) :
+  StronglySorted Z.le (map fst (sort_blocks (cell_blocks [] grids 0))) /\
+  Permutation (concat (cell_ids_3d grids)) (seq 0 (total grids)).
+Proof. split; [apply cell_ids_3d_sorted|apply cell_ids_3d_perm]. Qed.
+
 (* ------------------------------------------------------------------------------ *)
 (* scatter after gather                                                           *)
 (* ------------------------------------------------------------------------------ *)
@@ -223,16 +282,29 @@ Section Field.
     apply (Permutation_in _ (Permutation_sym Hp)). apply in_seq. lia.
   Qed.
 
+  Theorem roundtrip_ids_id (garbage : list A) (ids : list (list nat)) (per_entity : list (list A)) :
+    Permutation (concat ids) (seq 0 (length (concat per_entity))) ->
+    length garbage = length (concat per_entity) ->
+    roundtrip_ids A d garbage ids per_entity = per_entity.
+  Proof.
+    intros Hp Hg. unfold roundtrip_ids, import_blocks. rewrite concat_export.
+    rewrite scatter_gather by assumption. apply chop_concat.
+  Qed.
+
   Theorem roundtrip_id (garbage : list A) (grids : list (list Z)) (per_entity : list (list A)) :
     length (concat per_entity) = total grids ->
     length garbage = total grids ->
     roundtrip A d garbage grids per_entity = per_entity.
   Proof.
-    intros Hn Hg. unfold roundtrip, import_blocks. rewrite concat_export.
-    rewrite scatter_gather.
-    - apply chop_concat.
-    - rewrite Hn. apply cell_ids_perm.
-    - rewrite Hn. exact Hg.
+    intros Hn Hg. apply roundtrip_ids_id; rewrite Hn; [apply cell_ids_perm|exact Hg].
+  Qed.
+
+  Theorem roundtrip_3d_id (garbage : list A) (grids : list (list Z)) (per_entity : list (list A)) :
+    length (concat per_entity) = total grids ->
+    length garbage = total grids ->
+    roundtrip_3d A d garbage grids per_entity = per_entity.
+  Proof.
+    intros Hn Hg. apply roundtrip_ids_id; rewrite Hn; [apply cell_ids_3d_perm|exact Hg].
   Qed.
 End Field.
 
@@ -254,11 +326,22 @@ Proof.
   - subst l. split; [left; reflexivity|]. constructor; [lia|constructor].
 Qed.
 
-Theorem restart_latest {F} (unit : Z) (entries : list (Z * F)) :
+Lemma filter_same {F} (t : Z) (l : list F) :
+  map snd (filter (fun e => Z.eqb (fst e) t) (map (fun g => (t, g)) l)) = l.
+Proof.
+  induction l as [|g l IH]; [reflexivity|].
+  cbn [map filter fst]. rewrite Z.eqb_refl. cbn [map snd]. f_equal. exact IH.
+Qed.
+
+Definition first_suffix {F} (suffix : F -> Z) (fs : list F) : Z :=
+  match fs with f :: _ => suffix f | [] => 0%Z end.
+
+Theorem restart_latest {F} (suffix : F -> Z) (entries : list (Z * F)) :
   entries <> [] ->
   exists m,
-    restart_files unit entries
-    = Some (Z.quot m unit, map snd (filter (fun e => Z.eqb (fst e) m) entries)) /\
+    restart_files suffix entries
+    = Some (first_suffix suffix (map snd (filter (fun e => Z.eqb (fst e) m) entries)),
+            map snd (filter (fun e => Z.eqb (fst e) m) entries)) /\
     In m (map fst entries) /\ Forall (fun e => (fst e <= m)%Z) entries.
 Proof.
   intro Hne. unfold restart_files. pose proof (latest_spec (map fst entries)) as H.
@@ -268,34 +351,36 @@ Proof.
   - destruct entries; [contradiction|discriminate].
 Qed.
 
-(* when the time steps were written at strictly increasing times, the files imported are
-   exactly the files of the most recent export, whatever the times are (they need not be
-   the step indices) *)
-Theorem restart_most_recent {F} (unit : Z) (older : list (Z * F)) (t : Z) (last : list F) :
-  last <> [] ->
+(* when the most recent export was written at a time larger than all earlier ones, the
+   files imported are exactly its files and the index returned is their suffix, whatever
+   the times are (they need not be the step indices) *)
+Theorem restart_most_recent {F} (suffix : F -> Z) (older : list (Z * F)) (t : Z)
+        (f : F) (last : list F) :
   Forall (fun e => (fst e < t)%Z) older ->
-  exists i, restart_files unit (older ++ map (fun f => (t, f)) last) = Some (i, last).
+  restart_files suffix (older ++ map (fun g => (t, g)) (f :: last))
+  = Some (suffix f, f :: last).
 Proof.
-  intros Hne Hold. set (entries := older ++ map (fun f => (t, f)) last).
-  destruct (restart_latest unit entries) as (m & Hr & Hin & Hall).
-  { unfold entries. destruct last; [contradiction|]. destruct older; discriminate. }
+  intros Hold. set (entries := older ++ map (fun g => (t, g)) (f :: last)).
+  destruct (restart_latest suffix entries) as (m & Hr & Hin & Hall).
+  { unfold entries. destruct older; discriminate. }
   assert (Hm : m = t).
   { apply Z.le_antisymm.
     - unfold entries in Hin. rewrite map_app, map_map in Hin. cbn [fst] in Hin.
       apply in_app_or in Hin as [Hin|Hin].
       + apply in_map_iff in Hin as (e & <- & He). rewrite Forall_forall in Hold.
         specialize (Hold e He). lia.
-      + apply in_map_iff in Hin as (f & <- & _). lia.
-    - rewrite Forall_forall in Hall. destruct last as [|f last]; [contradiction|].
+      + apply in_map_iff in Hin as (g & <- & _). lia.
+    - rewrite Forall_forall in Hall.
       apply (Hall (t, f)). unfold entries. apply in_or_app. right. left. reflexivity. }
-  subst m. exists (Z.quot t unit). rewrite Hr. f_equal. f_equal.
-  unfold entries. rewrite filter_app, map_app.
-  replace (filter (fun e => Z.eqb (fst e) t) older) with (@nil (Z * F)).
-  - cbn [map app]. clear. induction last as [|f last IH]; [reflexivity|].
-    cbn [map filter fst]. rewrite Z.eqb_refl. cbn [map snd]. f_equal. exact IH.
-  - symmetry. clear -Hold. induction Hold as [|e older He Hold IH]; [reflexivity|].
-    cbn [filter]. replace (Z.eqb (fst e) t) with false; [exact IH|].
-    symmetry. apply Z.eqb_neq. lia.
+  subst m. rewrite Hr.
+  assert (Hfs : map snd (filter (fun e => Z.eqb (fst e) t) entries) = f :: last).
+  { unfold entries. rewrite filter_app, map_app.
+    replace (filter (fun e => Z.eqb (fst e) t) older) with (@nil (Z * F)).
+    - cbn [app]. exact (filter_same t (f :: last)).
+    - symmetry. clear -Hold. induction Hold as [|e older He Hold IH]; [reflexivity|].
+      cbn [filter]. replace (Z.eqb (fst e) t) with false; [exact IH|].
+      symmetry. apply Z.eqb_neq. lia. }
+  rewrite Hfs. reflexivity.
 Qed.
 
 (* ------------------------------------------------------------------------------ *)
